@@ -214,10 +214,14 @@ for h, t, b in [
 # ---------------------------------------------------------------------------------------------------------------- C15
 add = prop("C15", "c15",
  "Bounded model checking of the floating-point kernels that do not depend on libm values, bit-precisely (CBMC's IEEE-754 encoding of +,*,casts,shifts,from_bits): Prob::checked for ALL 2^64 f64 bit patterns; the fastexp kernel for ALL doubles x <= 0 (never NaN, result in [0, 1.005], (almost) zero below the cut-off, within 0.5 % of 1 at 0) and, cell by cell, for ALL doubles in each cell of a partition of the argument range: exp(lo)*(1-0.005) <= fastexp(x) <= exp(hi)*(1+0.005).",
- "The cell bounds use endpoint values of exp computed natively at generation time (trusted: exp is monotone; libm's exp is within 1 ulp at the endpoints, and the constants are rounded outward). By construction a kernel within the property's 0.5 % of exp is never rejected; a kernel accepted on a cell is within 0.5 % + cell slack (1.09 % for the 64-cell partition used). Quick: Prob::checked, the range harness (all x <= 0) and 16 of the coarse cells (64 per octave for the octaves 2^0, 2^-1, 2^-8, 2^-64, 2^-512) whose measured solver time is at most 2 min, rotated by VERIF_SEED so that successive runs cover different cells. Thorough: all 316 coarse cells that a complete run decided (solver time per cell varies from 5 s to 36 min; 4 of the 320 cells did not finish within 46 min and are not listed, so the accuracy claim has these 4 gaps: c15_cellq_o8_001, o512_003, o512_022, o512_039). " + TRUST + "Not decidable with this technique: every clause whose value depends on libm (ln_1p unsupported, exp/ln over-approximated by CBMC): the 0.5 % bound for ln_add_exp/ln_sum_exp/ln_cumsum_exp/ln_sub_exp/ln_one_minus_exp, the integrators, Prob<->LogProb and Prob<->PHRED conversions; the PHRED<->LogProb round trip (two multiplications by constants with a relative-error assertion) timed out at 10 min.",
- ["bio::stats::probs::Prob::checked", "<f64 as bio::utils::FastExp>::fastexp"],
- "see level_note", "everything that calls libm; arguments between the listed octaves at the fine resolution", ["monotonicity of the real exponential; natively computed exp at cell endpoints, rounded outward by one ulp"])
+ "The cell bounds use endpoint values of exp computed natively at generation time (trusted: exp is monotone; libm's exp is within 1 ulp at the endpoints, and the constants are rounded outward). By construction a kernel within the property's 0.5 % of exp is never rejected; a kernel accepted on a cell is within 0.5 % + cell slack (1.09 % for the 64-cell partition used). Quick: Prob::checked, the range harness (all x <= 0) and 16 of the coarse cells (64 per octave for the octaves 2^0, 2^-1, 2^-8, 2^-64, 2^-512) whose measured solver time is at most 2 min, rotated by VERIF_SEED so that successive runs cover different cells. Thorough: all 316 coarse cells that a complete run decided (solver time per cell varies from 5 s to 36 min; 4 of the 320 cells did not finish within 46 min and are not listed, so the accuracy claim has these 4 gaps: c15_cellq_o8_001, o512_003, o512_022, o512_039). " + TRUST + "Structure of log-space addition (ln(0) neutral, never NaN, result >= larger operand) is decided with f64::ln_1p replaced by a nondeterministic contract stub (-Z stubbing), i.e. for every function satisfying ln_1p's contract. Not decidable with this technique: every clause whose value depends on libm (ln_1p unsupported, exp/ln over-approximated by CBMC): the 0.5 % bound for ln_add_exp/ln_sum_exp/ln_cumsum_exp/ln_sub_exp/ln_one_minus_exp, the integrators, Prob<->LogProb and Prob<->PHRED conversions; the PHRED<->LogProb round trip (two multiplications by constants with a relative-error assertion) timed out at 10 min.",
+ ["bio::stats::probs::Prob::checked", "<f64 as bio::utils::FastExp>::fastexp", "bio::stats::probs::LogProb::{ln_add_exp, ln_sum_exp, ln_cumsum_exp, scan_ln_add_exp, ln_zero} (with f64::ln_1p stubbed by its contract)"],
+ "see level_note", "everything that calls libm; arguments between the listed octaves at the fine resolution", ["monotonicity of the real exponential; natively computed exp at cell endpoints, rounded outward by one ulp", "structure instances: f64::ln_1p is replaced by a stub returning ANY value allowed by its contract (exact 0 at 0, NaN below -1, -inf at -1, 0 <= r <= x for x > 0, r <= x for -1 < x < 0)"])
 add("c15_prob_checked", 1, "Prob::checked(p).is_ok() <=> 0 <= p <= 1, all f64 bit patterns incl. NaN, +-inf, -0.0")
+STUB = ["--no-memory-safety-checks", "-Z", "stubbing"]
+add("c15_ln_add_exp_structure", 35, "LogProb::ln_add_exp for ALL valid operand pairs (incl. -inf) with f64::ln_1p replaced by a contract stub (ln_1p(0)=0, sign of x, |ln_1p(x)|<=|x| for x>0, ln_1p(x)<=x for x<0): ln(0) is neutral on either side bit-for-bit, no NaN, result >= larger operand", flags=STUB, role="structure")
+add("c15_ln_sum_exp_structure_n1", 4, "LogProb::ln_sum_exp / ln_cumsum_exp on one operand, ln_1p stubbed: no NaN, sum of zeros is zero, cumulative sum non-decreasing", flags=STUB, role="structure", min_covers=0)
+add("c15_ln_sum_exp_structure_n3", 770, "LogProb::ln_sum_exp / ln_cumsum_exp on three operands (all valid values incl. -inf), ln_1p stubbed: no NaN, result >= max operand, all-zero list gives zero, cumulative sum non-decreasing", flags=STUB, role="structure", tier="thorough")
 add("c15_fastexp_range", 10, "fastexp for all doubles x <= 0 incl. -inf: not NaN, in [0,1.005], ~0 below -500, within 0.5 % at 0")
 # per-cell solver times measured by a complete thorough run on the unchanged tree (c15_cells.json); cells that did not finish
 # within 46 min there (4 of 320) are not listed. Cells that took <= 120 s are eligible for the quick tier's seed rotation.
